@@ -9,7 +9,7 @@ they are simulated; `n.maxQubits` / `n.maxRegs` are the node's configured limits
 any limits.
 -/
 namespace SqVerif.C07
-open SqVerif.VNet
+open SqVerif.VNet SqVerif.VNet.WFP
 
 /-! ### T07.1 creation -/
 
